@@ -248,12 +248,16 @@ def extract_branch_results_with_internals(net, branch_results, table_name,
             _, sections, connected_sum = _sum_by_group(use_numba, idx_pit, np.ones_like(idx_pit),
                                 comp_connected.astype(np.int32))
             connected_ind = connected_sum > 0.99
-            indices_last_section = (np.cumsum(sections) - 1).astype(int)[connected_ind]
+            # the sections of one element form a contiguous block of the pit, blocks follow the row
+            # order of the table (not the sorted index order that _sum_by_group returns)
+            last_pos = np.where(np.append(idx_pit[1:] != idx_pit[:-1], True))[0]
+            last_pos_sorted = last_pos[np.argsort(idx_pit[last_pos], kind="stable")]
+            indices_last_section = last_pos_sorted[connected_ind]
             # hint: idx_pit[placement_table] should result in the indices as ordered in the table
             pt = placement_table[connected_ind]
 
             for i, (res_name, entry) in enumerate(res_branch):
-                res_table[res_name].values[pt] = branch_results[entry][indices_last_section]
+                res_table[res_name].values[pt] = branch_results[entry][f:t][indices_last_section]
 
 
 def extract_branch_results_without_internals(net, branch_results, required_results_hydraulic,
